@@ -4,7 +4,7 @@ Three suites:
 
 * ``displacement-ops``  Ball / Sphere / Box / Translation / Rotation / TranslationRotation / CompositeOperation on real
   ``DisplacementContext`` objects over real ASE ``Atoms`` (triclinic cells, 1–12-atom groups selected through
-  ``context._moving_indices``).  *scripted* cases replace ``context.rng`` by ``ScriptedRNG`` (the draws are the case) and
+  ``common.get_moving(context)``).  *scripted* cases replace ``context.rng`` by ``ScriptedRNG`` (the draws are the case) and
   are compared with the Lean ``Float`` model; *pcg* cases use a genuine ``Generator(PCG64(seed))`` and are checked by
   the oracle only.
 * ``deformation-ops``   Isotropic / Anisotropic / Shape deformations and composites of them on real
@@ -316,6 +316,14 @@ def build_def_op(op):
     if k == "dcomp":
         return CompositeOperation([build_def_op(p) for p in op["parts"]])
     cls = {"iso": IsotropicDeformation, "aniso": AnisotropicDeformation, "shape": ShapeDeformation}[k]
+    # another operation of the same class, built with the default mask, whose mask the user then edits IN PLACE (freezing z):
+    # what one object is told must not reach any other object (a default array shared between instances would)
+    decoy = cls(op["m"])
+    try:
+        decoy.mask[2, :] = False
+        decoy.mask[:, 2] = False
+    except (ValueError, TypeError):      # a read-only default mask is fine too
+        pass
     if op.get("mask") is None:
         return cls(op["m"])
     return cls(op["m"], mask=np.array(op["mask"], dtype=bool).reshape(3, 3))
@@ -355,13 +363,13 @@ def run_with_parts(case, build, ctx_cls):
     rng = make_rng(case)
     ctx = ctx_cls(atoms, rng)
     if "moving" in case:
-        ctx._moving_indices = np.array(case["moving"]) if case.get("moving_array") else list(case["moving"])
+        common.set_moving(ctx, np.array(case["moving"]) if case.get("moving_array") else list(case["moving"]))
     obs: dict = {}
     if op["kind"] in ("comp", "dcomp"):
         twin_atoms = make_atoms(case)
         twin = ctx_cls(twin_atoms, make_rng(case))
         if "moving" in case:
-            twin._moving_indices = list(case["moving"])
+            common.set_moving(twin, list(case["moving"]))
         parts = []
         for p in op["parts"]:
             r = np.asarray(build(p).calculate(twin), dtype=float)
@@ -819,7 +827,7 @@ class ProposalSymmetry(common.Suite):
                 rows.append([A[0, 0], A[1, 1], A[2, 2], A[0, 1], A[0, 2], A[1, 2]])
             return np.array(rows)
         ctx = DisplacementContext(atoms, rng)
-        ctx._moving_indices = list(g["moving"])
+        common.set_moving(ctx, list(g["moving"]))
         o = build_disp_op(op)
         grp = atoms.positions[g["moving"]].copy()
         m = atoms.get_masses()[g["moving"]]
@@ -938,7 +946,7 @@ class MoveRetry(common.Suite):
         atoms = make_atoms(case)
         rng = make_rng(case)
         ctx = DisplacementContext(atoms, rng)
-        ctx._moving_indices = np.array(case["moving"]) if case.get("moving_array") else list(case["moving"])
+        common.set_moving(ctx, np.array(case["moving"]) if case.get("moving_array") else list(case["moving"]))
         move = DisplacementMove(np.zeros(len(atoms), dtype=int), operation=build_disp_op(case["op"]))
         move.max_attempts = case["max_attempts"]
         verdicts = iter(c == "1" for c in case["checks"])
@@ -1113,10 +1121,10 @@ class OperationHandedOver(common.Suite):
             # the draws the GIVEN operation needs on the selected particle, replayed on a twin generator
             twin = Atoms(f"Cu{n}", positions=before, cell=[6.0, 6.0, 6.0], pbc=True)
             tctx = DisplacementContext(twin, ref)
-            tctx._moving_indices = np.array([0])
+            common.set_moving(tctx, np.array([0]))
             want = op.calculate(tctx)
             exp = np.zeros_like(before)
-            exp[tctx._moving_indices] = want
+            exp[common.get_moving(tctx)] = want
             out["as_given"] = float(np.abs(d - exp).max())
         return out
 
